@@ -297,6 +297,20 @@ def run(ctx):
             cur["make"] = lambda data=data: data
             check("plain-return", True, ("ret", repr(data)),
                   {"value": repr(data)})
+        # ---- equal header collections on answers of different sizes
+        for hdrs in ((("X-Same", "1"),), [("X-Same", "1")], {"X-Same": "1"},
+                     (("X-Same", "1"), ("Cache-Control", "no-cache"))):
+            for size in (3, 10, 0, 7, 10000, 1):
+                cur["make"] = lambda hdrs=hdrs, size=size: (
+                    b"x" * size, "text/plain", hdrs)
+                check("same-headers", True,
+                      ("same-headers-tuple", repr(hdrs), size),
+                      {"headers": repr(hdrs), "size": size})
+                cur["make"] = lambda hdrs=hdrs, size=size: Response(
+                    "y" * size, headers=hdrs)
+                check("same-headers", True,
+                      ("same-headers-response", repr(hdrs), size),
+                      {"headers": repr(hdrs), "size": size})
         # ---- no body on 204/304/declined
         cur["make"] = lambda: NoContentResponse()
         check("nocontent", True, ("204",), {}, expect_nobody=True)
@@ -329,6 +343,38 @@ def run(ctx):
                     ctx.violation("clen-mismatch", {
                         "kind": "builtin-page", "path_len": n,
                         "answer": ans.summary()})
+        # ---- files served from the document root, as a revalidating
+        # client asks for them (validators copied from the first answer)
+        app3 = new_app(document_root=tmpdir)
+        for size in (0, 1, 5, 9000):
+            name = "static_%d.bin" % size
+            with open(os.path.join(tmpdir, name), "wb") as fil:
+                fil.write(b"s" * size)
+            first = call(app3, environ(path="/" + name))
+            lm = first.header("Last-Modified") or ""
+            etag = first.header("ETag") or '"x"'
+            for hdrs in ({}, {"If-Modified-Since": lm},
+                         {"If-Modified-Since": "Thu, 01 Jan 1970 00:00:00 "
+                                               "GMT"},
+                         {"If-None-Match": etag}, {"If-None-Match": "*"},
+                         {"If-Modified-Since": lm, "If-None-Match": etag},
+                         {"If-Unmodified-Since": lm}, {"If-Range": lm},
+                         {"Cache-Control": "max-age=0"}):
+                for method in ("GET", "HEAD"):
+                    ans = call(app3, environ(method=method, path="/" + name,
+                                             headers=hdrs))
+                    det = {"kind": "static-file", "size": size,
+                           "method": method, "request_headers": hdrs}
+                    ctx.case(("static", size, method, repr(hdrs)), True, det)
+                    ctx.count("static-conditional")
+                    cl = ans.header_all("Content-Length")
+                    if ans.raised or ans.iter_raised or len(cl) > 1 or \
+                            (cl and (not cl[0].isdigit() or
+                                     int(cl[0]) != len(ans.body))) or \
+                            (not cl and ans.body) or \
+                            (ans.code in (204, 304) and ans.body):
+                        ctx.violation("clen-mismatch", dict(
+                            det, answer=ans.summary()))
         ctx.correspondence("clen", IMPORTS, cases, lambda p: p)
     finally:
         shutil.rmtree(tmpdir, ignore_errors=True)
